@@ -888,3 +888,19 @@ def c12(obs, act, viols, probes):
         viols.append(_v('log_attributed_to_other_phase', message=msg[:60], logger=l.logger_name[-40:]))
   if any(e[3] == 'late_action' for e in log):
     probes['late_action_by_abandoned_body'] = probes.get('late_action_by_abandoned_body', 0) + 1
+  # monitor threads: every sample in a phase record was taken by that invocation's own monitor
+  # thread (the sampled value is the monitor thread's serial number)
+  seen_serial = {}
+  for i, p in enumerate(act.rec.phases):
+    for mn, meas in (p.measurements or {}).items():
+      if not mn.startswith('mon_') or not meas.measured_value.is_value_set:
+        continue
+      probes['monitored_phase'] = probes.get('monitored_phase', 0) + 1
+      serials = sorted(set(v for (_, v) in meas.measured_value.value))
+      if len(serials) > 1:
+        viols.append(_v('monitor_samples_of_another_invocation', phase=p.name, serials=serials))
+      for sr in serials:
+        if sr in seen_serial and seen_serial[sr] != i:
+          viols.append(_v('monitor_samples_of_another_invocation', phase=p.name, serials=serials,
+                          also_in_record=seen_serial[sr]))
+        seen_serial[sr] = i
